@@ -7,6 +7,8 @@ os.makedirs(dst, exist_ok=True)
 for f in glob.glob(f'{wt}/SEEDED/*'):
     if 'foreign' in os.path.basename(f).lower():
         continue
+    if os.path.isdir(f):
+        continue
     shutil.copy(f, dst)
 meta = {
     'property': prop,
